@@ -12,7 +12,8 @@ from hypothesis import strategies as st
 
 LONGS = ["foo", "bar", "baz-x", "opt1", "qux", "num", "k2", "verbose-mode"]
 SHORTS = list("fbxoqnkFBX")
-ARGNAMES = ["a1", "a2", "src", "dst", "file-name", "rest"]
+# cmd11 / cmd21: legal argument names that look like the placeholders the parser uses internally for command names
+ARGNAMES = ["a1", "a2", "src", "dst", "file-name", "rest", "cmd11", "cmd21"]
 CMDNAMES = ["server", "add", "remote"]
 ALIASES = ["srv", "ad", "rm", "up", "s2"]
 TYPES = "sbif"
